@@ -156,6 +156,23 @@ pub fn run(p: &Params) -> Outcome {
                 check_frame(ctx, &f, &supported, "hostile_typed");
             }
         }
+        if is_sup {
+            // bodies that hold the most negative value of a two's-complement carrier in every slot: a run of
+            // "1 followed by w-1 zeros" starting at every bit position h, behind a header of ones or noise
+            // (seeded change C14-R11: `abs()` of a 16-bit field panics on 0x8000 under overflow checks, i.e.
+            // the frame gets none of the four outcomes; uniform payloads hit that once in 2^16 per slot)
+            for w in [8usize, 10, 12, 14, 15, 16, 17, 20, 21, 22, 24, 32, 38] {
+                for h in 12..=96usize {
+                    for ones in [true, false] {
+                        let mut pl = if ones { vec![0xFFu8; 160] } else { rng.bytes(160) };
+                        for b in h..160 * 8 {
+                            bits::write(&mut pl, b, 1, ((b - h) % w == 0) as u128);
+                        }
+                        check_frame(ctx, &mk(&mut pl), &supported, "runs_of_carrier_minimum_patterns");
+                    }
+                }
+            }
+        }
         if n < 64 {
             // payloads shorter than two bytes
             // with every setting of the six reserved header bits (n doubles as the setting)
@@ -182,7 +199,7 @@ pub fn run(p: &Params) -> Outcome {
     }
     Outcome {
         ctx: total,
-        rule: "all n in 0..=4095 x payload shapes {2 bytes, short, 1023 zero/ones/random, random length} + library-generated and hostile frames for supported n + payloads of 0 and 1 bytes; supported := msgNNNN features parsed from the tree's Cargo.toml (must equal all_msgs); oracle: Empty iff L<2, MsgNotSupported{n} iff n unsupported, else Corrupt or the variant named Msg<n> reporting n, which encodes under n; non-trivial = payload >= 2 bytes; distinct by frame hash".into(),
+        rule: "all n in 0..=4095 x payload shapes {2 bytes, short, 1023 zero/ones/random, random length} + library-generated and hostile frames and runs of carrier-minimum patterns at every bit phase for supported n + payloads of 0 and 1 bytes; supported := msgNNNN features parsed from the tree's Cargo.toml (must equal all_msgs); oracle: Empty iff L<2, MsgNotSupported{n} iff n unsupported, else Corrupt or the variant named Msg<n> reporting n, which encodes under n; non-trivial = payload >= 2 bytes; distinct by frame hash".into(),
         exhaustive: false,
         extra: json!({"supported": sup2.len(), "all_msgs": all.len()}),
     }
